@@ -57,6 +57,10 @@ CrEntries == {E(hello, <<56>>, <<unstable>>, << <<urgency, low>> >>, <<<<>>, l10
 DashEntries == {E(hello, <<55>>, <<unstable>>, << <<urgency, low>> >>, <<<<>>, l8, l9, <<>>>>, m1, D(1, 2, 1, 2006, 15, 4, 5, TRUE, 7, 0))}
 ZoneEntries == {E(hello, <<49>>, <<unstable>>, << <<urgency, low>> >>, Body3, m1, D(1, 2, 1, 2006, 15, 4, 5, zn, zh, zm)) :
                    zn \in BOOLEAN, zh \in {0, 3, 9, 12}, zm \in {0, 30, 45}}
+\* two entries whose version texts share their first 16 bytes: 1:2.36.1-8+deb11u2 over 1:2.36.1-8+deb11u1
+lv(d) == <<49, COLON, 50, DOT, 51, 54, DOT, 49, HYPHEN, 56, PLUS, 100, 101, 98, 49, 49, 117, 48 + d>>
+LongVerPair == <<E(hello, lv(2), <<unstable>>, << <<urgency, low>> >>, Body3, m1, D(1, 2, 1, 2006, 15, 4, 5, TRUE, 7, 0)),
+                 E(hello, lv(1), <<unstable>>, << <<urgency, low>> >>, Body3, m1, D(7, 1, 1, 2006, 15, 4, 5, TRUE, 7, 0))>>
 ASSUME Emit(SetToSeq({Vec(es, lead, gap, final) : es \in Models, lead \in {0, 1}, gap \in {1, 2}, final \in BOOLEAN})
-            \o SetToSeq({Vec(<<e>>, 0, 1, TRUE) : e \in ZoneEntries \cup SepEntries \cup DashEntries \cup CrEntries} \cup {Vec(<<ZeroEpoch>>, 0, 1, TRUE)}))
+            \o SetToSeq({Vec(<<e>>, 0, 1, TRUE) : e \in ZoneEntries \cup SepEntries \cup DashEntries \cup CrEntries} \cup {Vec(<<ZeroEpoch>>, 0, 1, TRUE), Vec(LongVerPair, 0, 1, TRUE)}))
 =============================================================================
